@@ -305,7 +305,7 @@ def _node_variants(ctx):
 
 
 def bit3(ctx):
-    r = RuleResult("BIT-3", "Segment: get_node/set_node/set_feat/feat_match equations for every node, every single-bit mask and both polarities (bit-level abstract interpretation)", floor=1486)
+    r = RuleResult("BIT-3", "Segment: get_node/set_node/set_feat/feat_match equations for every node, every single-bit mask and both polarities (bit-level abstract interpretation)", floor=1518)
     lib = ctx.lib
     pm = PlaceModel(ctx)
     sadt = ctx.adt(lib, SEG)
@@ -527,6 +527,19 @@ def bit3(ctx):
                         if not _same_opt(g, exp):
                             r.report("BIT-3|set_feat2|%s|bits%d,%d=%d%d|%s|%s" % (k, i, j, vi, vj, "+" if pos else "-", sname), fn_loc(set_feat), set_feat.path,
                                      "set_feat(%s, bits %d|%d, %s) on place {%s}: get_node is %s, expected %s" % (k, i, j, bool(pos), sname, _show(g), _show(exp)))
+    # [±place]: is_place_some / is_place_none agree with "any sub-node present" on every canonical place
+    for nm_, neg in (("is_place_some", False), ("is_place_none", True)):
+        fb = lib.body(SEG + "::" + nm_)
+        if fb is None:
+            raise AnchorMissing("Segment::%s not found" % nm_)
+        for sname, w0, sh in starts:
+            g = run(fb, [selfref], {"self": seg(w0)})
+            n += 1
+            want = ("bool", (0 if any(sh.values()) else 1) if neg else (1 if any(sh.values()) else 0))
+            r.inst("%s on place {%s}" % (nm_, sname), fn_loc(fb), "ok" if g == want else "report")
+            if g != want:
+                r.report("BIT-3|%s|%s" % (nm_, sname), fn_loc(fb), fb.path, "%s on a segment whose place is {%s} is %s; the place node is positive exactly when a sub-node is present" % (
+                    nm_, sname, _show(g) if g != "diverge" else g))
     # the kinds that must panic do so in all three entry points (a silent fall-through would corrupt a node)
     for k in kinds:
         if kind_of[k][0] == "panic":
